@@ -27,7 +27,7 @@ LEVEL = "model_checking"
 ENGINE = "E2 parse-history enumeration in forked pristine images + E4 preemption-bounded thread schedules"
 RULE = (
     "E2: every sequence of <= D parses over a 13-text corpus, each sequence in a process forked from a pristine parent, every "
-    "parse compared with the fresh-interpreter baseline of its text. E4: ordered pairs of corpus texts x {cold, warm memo tables} "
+    "parse compared with the fresh-interpreter baseline of its text. E4: ordered pairs of corpus texts x {pristine, warm process image} "
     "x both start orders x EVERY switch point (preemption bound 1; thorough adds opcode granularity and bound 2 at call "
     "granularity); distinct = distinct history or distinct (pair, configuration, schedule); non-trivial = history of >= 2 parses "
     "or schedule with >= 1 preemption"
@@ -111,24 +111,24 @@ def plan(tier, seed):
     pairs = PAIRS_QUICK if tier == "quick" else PAIRS_THOROUGH
     K = 8
     for a, b in pairs:
-        for cfg in ("cold", "warm"):
+        for cfg in ("pristine", "warm"):
             for first in (0, 1):
                 for k in range(K):
                     shards.append(("sched1", a, b, cfg, first, "line", k, K))
     if tier == "thorough":
         K2 = 16
         for a, b in pairs:
-            for cfg in ("cold", "warm"):
+            for cfg in ("pristine", "warm"):
                 for first in (0, 1):
                     for k in range(K2):
                         shards.append(("sched1", a, b, cfg, first, "opcode", k, K2))
         for a, b in pairs[:2]:
             for first in (0, 1):
                 for k in range(K2):
-                    shards.append(("sched2", a, b, "cold", first, "call", k, K2))
+                    shards.append(("sched2", a, b, "pristine", first, "call", k, K2))
     return dict(
         shards=shards,
-        bounds=dict(history_depth=D, corpus=NAMES, schedule_pairs=[list(p) for p in pairs], preemption_bound=1 if tier == "quick" else "1 (line, opcode), 2 (call granularity, first 2 pairs, cold)", granularity="line" if tier == "quick" else "line + opcode + call"),
+        bounds=dict(history_depth=D, corpus=NAMES, schedule_pairs=[list(p) for p in pairs], preemption_bound=1 if tier == "quick" else "1 (line, opcode), 2 (call granularity, first 2 pairs, pristine)", granularity="line" if tier == "quick" else "line + opcode + call"),
         budget_s=2400 if tier == "thorough" else 400,
     )
 
@@ -231,16 +231,29 @@ def _bodies(a, b):
     return [lambda: observe_item(a), lambda: observe_item(b)]
 
 
-def _prepare(cfg, a, b, tables):
-    if cfg == "cold":
-        sched.clear_memo_tables(tables)
+def _execute_here(a, b, first, gran, switches):
+    if gran == "opcode":
+        # CPython 3.12 delivers no opcode events to the first thread that ever asks for them in a process
+        # (instruction instrumentation is switched on lazily); a traced dummy call primes it
+        _prime_opcode_tracing()
+    s = sched.Sched(switches, gran, first)
+    return s.run(_bodies(a, b))
+
+
+def _prime_opcode_tracing():
+    import chartparse.tick as t
+
+    sched.Sched([], "opcode", 0).run([lambda: t.between(1, 2), lambda: t.between(1, 2)])
 
 
 def _execute(a, b, cfg, first, gran, switches, tables):
-    _prepare(cfg, a, b, tables)
-    s = sched.Sched(switches, gran, first)
-    out, steps, by, sig = s.run(_bodies(a, b))
-    return out, steps, by, sig
+    """One execution of a schedule. cfg "pristine": in a process image forked from one that has imported
+    the package but never parsed anything (every lazily built table, memo and cache is in its initial
+    state, whatever the package keeps and wherever it keeps it); cfg "warm": in this process, after both
+    texts were parsed once."""
+    if cfg == "pristine":
+        return in_fork(_execute_here, a, b, first, gran, switches)
+    return _execute_here(a, b, first, gran, switches)
 
 
 def _sched_shard(shard):
@@ -251,10 +264,12 @@ def _sched_shard(shard):
     counts = dict(nodes=0, edges=0, evaluations=0, executions=0, nontrivial=0)
     hist, samples, violations = {}, [], []
     capped = False
-    tables = sched.package_memo_tables()
+    tables = None
     if cfg == "warm":
         for n in (a, b):
             observe_item(n)
+        if gran == "opcode":
+            _prime_opcode_tracing()
     names = (a, b)
     base = [json.loads(json.dumps(BASELINE[n][0])) for n in names]
 
@@ -269,7 +284,7 @@ def _sched_shard(shard):
 
                 bad = "thread %d (text %r): %s" % (tid, names[tid], diff(got, base[tid]) if isinstance(got, list) and len(got) == 2 and isinstance(got[1], dict) and isinstance(base[tid][1], dict) else "%r vs %r" % (got[:2], base[tid][:2]))
         if bad and len(violations) < 3:
-            violations.append(dict(key="schedule-dependent", case=dict(kind="sched", a=a, b=b, cfg=cfg, first=first, gran=gran, switches=list(switches)), msg="concurrent parses of %r and %r (%s memo tables, thread %d starts, %s granularity, switch at steps %r): %s" % (a, b, cfg, first, gran, list(switches), bad), script=SCHED_SCRIPT))
+            violations.append(dict(key="schedule-dependent", case=dict(kind="sched", a=a, b=b, cfg=cfg, first=first, gran=gran, switches=list(switches)), msg="concurrent parses of %r and %r (%s process image, thread %d starts, %s granularity, switch at steps %r): %s" % (a, b, cfg, first, gran, list(switches), bad), script=SCHED_SCRIPT))
         return bad is None
 
     def run(switches, check_det=False):
@@ -287,14 +302,10 @@ def _sched_shard(shard):
                 # harness resets leaks from one execution into the next - a history dependence of the code
                 if len(violations) < 3:
                     violations.append(dict(key="history-dependent", case=dict(kind="sched", a=a, b=b, cfg=cfg, first=first, gran=gran, switches=list(switches), twice=True), msg="the same schedule %r of concurrent parses of %r and %r, executed twice in one process, yields different observations: parsing depends on what was parsed before" % (list(switches), a, b), script=SCHED_SCRIPT))
-            elif sig2 != sig and cfg == "cold":
+            elif sig2 != sig and cfg == "pristine":
                 hist["step_signature_differs_on_replay(hidden state outside functools memo tables)"] = hist.get("step_signature_differs_on_replay(hidden state outside functools memo tables)", 0) + 1
         return out, steps, by
 
-    if gran == "opcode":
-        # CPython 3.12 delivers no opcode events to the first thread that ever asks for them in a process
-        # (instruction instrumentation is switched on lazily); one discarded execution primes it
-        _execute(a, b, cfg, first, gran, [], tables)
     # bound 0: thread `first` runs to completion, then the other
     out, steps, by = run([], check_det=True)
     if min(by) == 0:
@@ -332,11 +343,10 @@ def replay(case):
     plan_baselines([case["a"], case["b"]])
 
     def go():
-        tables = sched.package_memo_tables()
         if case["cfg"] == "warm":
             observe_item(case["a"])
             observe_item(case["b"])
-        out, _, _, _ = _execute(case["a"], case["b"], case["cfg"], case["first"], case["gran"], case["switches"], tables)
+        out, _, _, _ = _execute_here(case["a"], case["b"], case["first"], case["gran"], case["switches"])
         return out
 
     out = in_fork(go)
